@@ -320,7 +320,7 @@ pub fn finish(prop: &str, tier: Tier, reports: Vec<FamilyReport>, n_self: usize,
             "samples": samples,
             "evaluations": executions,
             "distinct_nontrivial": outcomes,
-            "rule": "every execution is a run of the real minimq Session/Connection under the controlled environment; executions are enumerated exhaustively by prefix replay within the listed bounds (all programs over the alphabet, all transport answers, cancellation points, broker orders, timer events whose total deviation cost is within the budget); an execution is distinct/non-trivial when its sequence of API results differs (distinct_outcome_classes); states = distinct 128-bit keys over the real session fingerprint + broker model + monitor state at operation boundaries",
+            "rule": "every evaluation is a run of the real minimq Session/Connection under the controlled environment (virtual transport, virtual clock, broker model). Schedule families: executions are enumerated exhaustively by prefix replay within the listed bounds (all programs over the alphabet, all transport answers, cancellation points, broker orders, timer events whose total deviation cost is within the budget); states = distinct 128-bit keys over the real session fingerprint + broker model + monitor state at operation boundaries. Closure families: breadth-first over event histories until no new state key appears (fixpoint_reached in the family bounds); states = distinct keys, transitions = history+event runs. Sweep families: every case of the listed finite input space is executed; states = distinct outcome classes. distinct_nontrivial counts distinct outcome classes (sequence of API results / class of observed behaviour); a run in which nothing collided would show as a single class.",
             "exhaustive": exhaustive,
             "families": fams,
             "reference_codec_self_test_cases": n_self,
